@@ -380,6 +380,17 @@ class Machine:
             h0 = self.resolve_by_type(c, tt)
             if h0 is not None and self.inline(c):
                 return self.run(h0, raw, generics=self.subst_generics((tt.get("fn") or {}).get("generics")))
+        if c.endswith("cmp::PartialEq::ne") and len(raw) == 2:
+            # the provided method `ne` of a type whose `eq` is written (or derived) in the crate: `!eq(a, b)` with THAT eq — a
+            # hand-written eq may ignore fields, so structural comparison of the abstract values is not the answer
+            h_eq = self.resolve_by_type(c[:-2] + "eq", tt)
+            if h_eq is not None and self.inline(h_eq.name):
+                r = self.run(h_eq, raw, generics=self.subst_generics((tt.get("fn") or {}).get("generics")))
+                if isinstance(r, bool):
+                    return not r
+                if r is UNKNOWN:
+                    return UNKNOWN
+                raise Stuck("`ne` through %s: no boolean answer" % h_eq.name)
         r = self._model(c, a, tt, g)
         if r is not NOT:
             return r
@@ -648,6 +659,10 @@ class Machine:
             if v is None or not lo <= v < hi or (ty.startswith("u") and a0.startswith("-")):
                 return err(("error-token", "ParseIntError"))
             return ok(v)
+        if "core::num::<impl " in c or "std::num::<impl " in c:
+            r = self._int_model(c, end, a)
+            if r is not NOT:
+                return r
         if "borrow::Cow" in c and end in ("deref", "as_ref", "borrow", "into_owned", "to_mut"):
             # Cow::Borrowed(x) / Cow::Owned(x): references are transparent, both stand for x
             v0 = absint.deref(a0)
@@ -1186,6 +1201,74 @@ class Machine:
             if isinstance(a0, int) and isinstance(a[1], int):
                 return {"lt": a0 < a[1], "le": a0 <= a[1], "gt": a0 > a[1], "ge": a0 >= a[1]}[end]
             return NOT
+        return NOT
+
+    def _int_model(self, c, end, a):
+        """methods of the primitive integer types on concrete values (`core::num::<impl i64>::abs` ...); anything else: NOT"""
+        import re as _re
+        mt = _re.search(r"<impl ([iu])(8|16|32|64|128|size)>", c)
+        if not mt:
+            return NOT
+        signed = mt.group(1) == "i"
+        bits = 64 if mt.group(2) == "size" else int(mt.group(2))
+        lo, hi = (-(1 << (bits - 1)), (1 << (bits - 1)) - 1) if signed else (0, (1 << bits) - 1)
+        if end == "from_str_radix" and len(a) == 2 and isinstance(a[0], str) and isinstance(a[1], int):
+            try:
+                v = int(a[0], a[1]) if a[0].strip() == a[0] and "_" not in a[0] else None
+            except ValueError:
+                v = None
+            return ok(v) if v is not None and lo <= v <= hi and not (not signed and a[0].startswith("-")) else err(("error-token", "ParseIntError"))
+        if not a or not all(isinstance(x, int) and not isinstance(x, bool) for x in a):
+            return NOT
+        x = a[0]
+        y = a[1] if len(a) > 1 else None
+
+        def wrap(v):
+            v &= (1 << bits) - 1
+            return v - (1 << bits) if signed and v > hi else v
+
+        def chk(v):
+            return some(v) if v is not None and lo <= v <= hi else none()
+
+        def tdiv(p, q):
+            r = abs(p) // abs(q)
+            return r if (p < 0) == (q < 0) else -r
+
+        def exact(v):
+            if v is None or not lo <= v <= hi:
+                raise Stuck("%s overflows / divides by zero on %r (a panic in a checked build)" % (c, a))
+            return v
+        binop = {"add": lambda: x + y, "sub": lambda: x - y, "mul": lambda: x * y,
+                 "div": lambda: tdiv(x, y) if y else None, "rem": lambda: (x - y * tdiv(x, y)) if y else None,
+                 "pow": lambda: x ** y if y >= 0 else None, "neg": lambda: -x, "abs": lambda: abs(x),
+                 "div_euclid": lambda: ((x - (x % abs(y))) // y) if y else None, "rem_euclid": lambda: (x % abs(y)) if y else None}
+        for pfx in ("checked_", "wrapping_", "saturating_", "overflowing_", ""):
+            if end.startswith(pfx) and end[len(pfx):] in binop and (pfx or end in ("abs", "pow", "div_euclid", "rem_euclid")):
+                op = end[len(pfx):]
+                if op not in ("neg", "abs") and y is None:
+                    return NOT
+                v = binop[op]()
+                if pfx == "checked_":
+                    return chk(v)
+                if pfx == "wrapping_":
+                    return wrap(v) if v is not None else NOT
+                if pfx == "saturating_":
+                    return max(lo, min(hi, v)) if v is not None else NOT
+                if pfx == "overflowing_":
+                    return [wrap(v), not lo <= v <= hi] if v is not None else NOT
+                return exact(v)
+        if end == "unsigned_abs":
+            return abs(x)
+        if end == "signum":
+            return (x > 0) - (x < 0)
+        if end == "is_negative":
+            return x < 0
+        if end == "is_positive":
+            return x > 0
+        if end == "abs_diff" and y is not None:
+            return abs(x - y)
+        if end in ("min_value", "max_value"):
+            return lo if end == "min_value" else hi
         return NOT
 
     def local_next(self, it):
